@@ -25,6 +25,9 @@ OBLIGATIONS = [
     "NanoVerif.C18.masters_reproduced",
     "NanoVerif.C18.masters_reproduced_rounded_model",
     "NanoVerif.C18.masters_reproduced_any_order",
+    "NanoVerif.Var.normalize_in_box",
+    "NanoVerif.Var.normalize_inj",
+    "NanoVerif.C18.config_masters_reproduced",
 ]
 DESIGN_REF = "DESIGN.md §5 C18"
 LEVEL_TEXT = ("Partial proof + exploration. Proved in Lean: (1) what is nanoemoji's own logic — each axis range is the hull of the masters' positions, attained at "
@@ -66,7 +69,7 @@ def one(job):
     rng = random.Random(seed)
     d = common.scratch_dir("c18")
     try:
-        two_axes = rng.random() < 0.5 or variant % 4 == 1     # the second job of every four always has two axes (and omits default positions)
+        two_axes = rng.random() < 0.5 or variant % 4 in (1, 3)     # the second job of every four always has two axes (and omits default positions)
         # `nested`: every master keeps its drawings in a directory of the SAME leaf name (regular/svg, bold/svg, other/svg), the common
         # project layout; with three masters the intermediates of the second and third must still be kept apart
         n_masters = 3 if (two_axes or nested) else rng.choice([2, 3])
@@ -99,9 +102,15 @@ def one(job):
             toml.append('[axis.wdth]\nname = "Width"\ndefault = 100')
         # `omit`: a non-default master states only the axes on which it differs from the default (an omitted axis means that axis' default,
         # whatever earlier masters said about it)
-        omit = two_axes and variant % 2 == 1
+        omit = two_axes and variant % 4 == 1
         defaults = {"wght": 400, "wdth": 100}
-        for mi, (nm, loc) in enumerate(zip(names, locs)):
+        # the default master need not be declared first: in the forced two-axis job a non-default master that shares ONE axis' default with the
+        # default master (wght 400, another wdth) comes first
+        decl = list(enumerate(zip(names, locs)))
+        # (with every position written out: `MasterConfig.pos` demands exactly one position per axis of every master it looks at)
+        if two_axes and variant % 4 == 3 and len(decl) == 3:
+            decl = [decl[2], decl[0], decl[1]]
+        for mi, (nm, loc) in decl:
             written = {k: v for k, v in loc.items() if not (omit and mi > 0 and v == defaults[k])}
             toml.append(f'[master.{nm}]\nstyle_name = "{nm.title()}"\nsrcs = ["{nm}{sub}/*.svg"]\n[master.{nm}.position]\n' + "\n".join(f"{k} = {v}" for k, v in written.items()))
         (d / "vf.toml").write_text("\n".join(toml) + "\n")
